@@ -255,12 +255,14 @@ impl MultiState {
             .map(|(d, width)| d.visual_line_count(.., width))
             .unwrap_or_default();
 
-        // Track the total number of zombie lines on the screen
-        self.zombie_lines_count = self.zombie_lines_count.saturating_add(line_count);
-
         // Make `DrawTarget` forget about the zombie lines so that they aren't cleared on next draw.
-        self.draw_target
+        let kept = self
+            .draw_target
             .adjust_last_line_count(LineAdjust::Keep(line_count));
+
+        // Track the total number of zombie lines on the screen: only lines that actually are on
+        // the screen count (after `clear()` the member's lines are not).
+        self.zombie_lines_count = self.zombie_lines_count.saturating_add(kept);
 
         self.remove_idx(index);
     }
@@ -361,9 +363,10 @@ impl MultiState {
         // screen: the draw was not refused by the rate limiter, and they are no longer part of
         // the lines the `DrawTarget` clears by itself.
         if !prints_text {
-            self.zombie_lines_count += adjust;
-            self.draw_target
+            let kept = self
+                .draw_target
                 .adjust_last_line_count(LineAdjust::Keep(adjust));
+            self.zombie_lines_count += kept;
         }
 
         drawable
